@@ -33,6 +33,11 @@ package verify
 //@   requires golden != nil && opts != nil
 //@   sweep[C07]
 //@   ensures[C02] err == nil ==> snpEndorsed(golden, opts.ExpectedLaunchVMSAs, val(opts.Measurement), opts.Measurement == nil)
+// C03 (completeness, unpinned mode): every measurement the endorsement lists, and its SVSM measurement, is accepted.
+//@   ghostparam kk Int
+//@   ensures[C03] golden.SevSnp != nil && opts.ExpectedLaunchVMSAs == 0 && opts.Measurement != nil && 0 <= kk && kk < 4294967296 && has(golden.SevSnp.Measurements, kk) && val(golden.SevSnp.Measurements[kk]) == val(opts.Measurement) ==> err == nil
+//@   ensures[C03] golden.SevSnp != nil && opts.ExpectedLaunchVMSAs == 0 && opts.Measurement != nil && val(golden.SevSnp.SvsmMeasurement) == val(opts.Measurement) ==> err == nil
+//@   loop 1 invariant[C03] forall(k, uint32, visited(k) ==> val(snp.Measurements[k]) != val(opts.Measurement))
 //@   assigns[C09] nothing
 
 //@ func SNPFamilyValidateFunc
